@@ -210,6 +210,18 @@ def d4_binding(facts, rep):
                'a cancellation of the parent can skip propagation (no children flag) although a child is being bound')
         rep.ob('D4', 'K1', fn, 'the parent-list epoch snapshot is an acquire load', bool(snap) and all(has_acquire(o['order'] or 0) for _, o in snap),
                ', '.join(oname(o['order']) for _, o in snap))
+        # K10: the snapshot validates the speculative read of the PARENT's flag, so it must be the epoch of the list that holds
+        # the parent (the list the propagator paints together with the parent): same access-path prefix as the flag that is copied
+        srcs = set()
+        for p_, o_ in flag_ops(fn, kinds=('load',)):
+            pth = fn.path(o_['obj'])
+            if '->' in pth:
+                srcs.add(pth.rsplit('->', 1)[0])
+        ok_owner = bool(snap) and bool(srcs) and all(any(fn.path(o['obj']).startswith(src + '->') for src in srcs) for _, o in snap)
+        rep.ob('D4', 'K10', fn, 'the epoch snapshot is taken from the context list that holds the parent whose state is copied', ok_owner,
+               'snapshot of %s validates a speculative copy from %s: a list that was already walked says nothing about whether the parent '
+               'has been marked yet, so the binder can copy a stale flag and skip the locked re-copy'
+               % (sorted(fn.path(o['obj']) for _, o in snap), sorted(srcs)))
         rep.ob('D4', 'K4', fn, 'the global epoch is compared after the registration (full fence)',
                bool(gload) and all(every_path_passes(fn, 'entry', lambda p, e: p in set(r[0] for r in regs), end=gp)[0] for gp, _ in gload),
                'epoch re-check before the context is visible to propagators')
